@@ -428,6 +428,78 @@ func (w *World) opGCPass(op Op) {
 	}
 }
 
+// opGCWait (C06, "is not starved"): nothing is forced. After the last change the harness waits for the grace period plus
+// two ticks; whatever was garbage by the time of the last-but-one tick must be gone: the timer-driven pass visits every
+// repository that changed since the grace period before its previous tick.
+func (w *World) opGCWait(op Op) {
+	if w.closed || w.k.readOnly() || w.k.freq() <= 0 {
+		return
+	}
+	w.settle()
+	wait := 2*w.k.freq() + time.Second
+	if g := w.k.grace(); g > 0 {
+		wait += g
+	}
+	simrt.Sleep(wait)
+	w.settle()
+	now := w.now()
+	asOf := now.Add(-w.k.freq() - 500*time.Millisecond)
+	type want struct{ blobs, mans map[string]bool }
+	wants := map[string]want{}
+	for _, repo := range w.x.p.Repos {
+		if w.tainted[repo] {
+			continue
+		}
+		b, m := w.m.mustRemove(w.m.repo(repo), asOf)
+		wants[repo] = want{b, m}
+	}
+	w.markCollectable()
+	w.x.out.probe("gc-wait")
+	q := w.quiet
+	w.quiet = true
+	defer func() { w.quiet = q }()
+	for _, repo := range w.x.p.Repos {
+		wt, ok := wants[repo]
+		if !ok {
+			continue
+		}
+		mr := w.m.repo(repo)
+		var left []string
+		for _, d := range sortedKeys(wt.blobs) {
+			r := w.do(reqSpec{method: "HEAD", path: "/v2/" + repo + "/blobs/" + d, repos: []string{repo}})
+			gone := r.Code == 404
+			if gone && w.k.Store == "dir" {
+				if _, err := os.Stat(blobPath(w.root, repo, d)); err == nil {
+					gone = false
+				}
+			}
+			if !gone {
+				left = append(left, d)
+			}
+		}
+		for _, d := range sortedKeys(wt.mans) {
+			r := w.do(reqSpec{method: "HEAD", path: "/v2/" + repo + "/manifests/" + d, hdr: map[string][]string{"Accept": {mtOCIIndex, mtOCIManifest, mtDockList, mtDockManifest}}, repos: []string{repo}})
+			if r.Code == 200 {
+				left = append(left, "manifest "+d)
+			}
+		}
+		if len(left) > 0 {
+			w.x.viol([]string{"C06"}, "gc.starved", w.garbageKind(mr, left[0]), fmt.Sprintf("%s after the last change (grace %s, a tick every %s) the timer-driven collection still has not removed %v from %s", wait, w.k.grace(), w.k.freq(), left, repo))
+			w.x.stop = true
+			return
+		}
+		if len(wt.blobs)+len(wt.mans) > 0 {
+			w.x.out.probe("gc-wait-collected")
+		}
+		for d := range wt.mans {
+			w.deleteManifest(mr, d)
+		}
+		for d := range wt.blobs {
+			delete(mr.blobs, d)
+		}
+	}
+}
+
 func (w *World) unhealthyRepos() []string {
 	var out []string
 	for _, r := range w.x.p.Repos {
@@ -686,6 +758,13 @@ func planC06(prop string, seed uint64, tier string, idx int) *Plan {
 		}
 		g.p.Extra["gcmix"] = kinds
 	}
+	natural := idx%3 == 1
+	if natural {
+		// nothing is forced: the ticker has to get to every repository on its own
+		g.p.Profile = "gc exactness (timer-driven passes only)"
+		k.GCFreqMs = int64(g.r.pick(900, 5000, 60000, 900000))
+		k.GCGraceMs = int64(g.r.pick(-1, 0, 1200, 60000, 3600000))
+	}
 	images, indexes, arts := g.gcGraph()
 	extra := g.newBlob(g.r.between(1, 200))
 	// touch every repository so the store knows it
@@ -697,6 +776,10 @@ func planC06(prop string, seed uint64, tier string, idx int) *Plan {
 		repo := g.r.intn(g.nrepos())
 		switch g.r.intn(12) {
 		case 0:
+			if natural {
+				g.add(Op{K: "gcwait"})
+				break
+			}
 			if k.grace() > 0 {
 				g.add(Op{K: "sleep", Ms: k.grace().Milliseconds() * int64(g.r.pick(5, 12, 20, 30)) / 10})
 			}
@@ -712,6 +795,10 @@ func planC06(prop string, seed uint64, tier string, idx int) *Plan {
 		default:
 			g.gcHistoryOp(repo, images, indexes, arts, extra)
 		}
+	}
+	if natural {
+		g.add(Op{K: "gcwait"})
+		return g.finish(prop, "gc-wait")
 	}
 	if k.grace() > 0 {
 		g.add(Op{K: "sleep", Ms: k.grace().Milliseconds() * 3})
